@@ -925,6 +925,17 @@ def gc7(F, R, part="ab"):
                             alt["data"] = True
                         if (o.kind == "edges_write" and is_new_edges(o.val)) or (o.kind == "edges_call" and o.op == "clear"):
                             alt["edges"] = True
+                # the blanking done at removal must not be undone later in the same call (e.g. the reader,
+                # itself a member, marked Taken after the loop)
+                kinds = {"pers": ("pers_write",), "data": ("data_write",), "edges": ("edges_write", "edges_call")}
+                for k2 in alt:
+                    if not alt[k2]:
+                        continue
+                    for r in rem:
+                        for o in devs:
+                            if o.kind in kinds[k2] and o.body is r.body and not ev_cooccur(o, r) and r.body.reaches(r.site, o.site) \
+                                    and not (o.kind == "pers_write" and variant_of(o.val) == "Empty") and not (o.kind == "data_write" and is_empty_hex(o.val)):
+                                alt[k2] = False
                 for k2 in need:
                     need[k2] = need[k2] or alt[k2]
             missing = sorted(k2 for k2, v in need.items() if not v)
@@ -960,6 +971,13 @@ def gc8(F, R):
                 n += 1
                 k = vkey(e.x)
                 kk = strip_load(k) if k is not None else None
+                if m == "data" and kk is not None and kk[0] == "item":
+                    # blanking of a removed member (accepted alternative idiom of GC7): resets only
+                    blank = (e.kind == "pers_write" and variant_of(e.val) == "Empty") or (e.kind == "data_write" and is_empty_hex(e.val)) or \
+                        (e.kind == "edges_write" and is_new_edges(e.val)) or (e.kind == "edges_call" and e.op == "clear")
+                    rem = [r for r in c.ev[m] if r.kind == "tag_write" and "none" in tag_value_class(r.val) and strip_sites(r.x) == strip_sites(e.x)]
+                    if blank and rem and all(ev_cooccur(e, r) for r in rem):
+                        continue
                 if kk not in params:
                     R.bad("GC8", "GC8/Sodg::%s/%s-on-other-vertex" % (m, e.kind), e.where(),
                           "%s() changes edges/data/read status of a vertex other than the one(s) named by its id parameters" % m,
